@@ -68,13 +68,16 @@ FailSync == {<<E("10-aa", "exec", IF k = 1 THEN "failsync" ELSE "healthy"), E("2
             \cup {<<E("10-only", "exec", "failsync")>>}
 
 Scenarios ==
-  CASE Mode = "dirs" -> {[entries |-> d, dropins |-> {}, stale |-> FALSE] : d \in Dirs2 \cup Dirs3 \cup Small}
+  CASE Mode = "dirs" -> {[entries |-> d, dropins |-> {}, stale |-> FALSE, syncfails |-> FALSE] : d \in Dirs2 \cup Dirs3 \cup Small}
     [] Mode = "dropins" -> {[entries |-> <<E("20-bb", "exec", "healthy"), E("10-aa", "exec", "healthy")>>, dropins |-> da \cup db,
-                             stale |-> FALSE] : da \in DropSets("10-aa"), db \in DropSets("20-bb")}
-    [] Mode = "more" -> {[entries |-> d, dropins |-> {}, stale |-> FALSE] : d \in {ExecBits, Liar} \cup FailSync}
-                        \cup {[entries |-> Dotted, dropins |-> ds, stale |-> FALSE] : ds \in DottedDrops}
+                             stale |-> FALSE, syncfails |-> FALSE] : da \in DropSets("10-aa"), db \in DropSets("20-bb")}
+    [] Mode = "more" -> {[entries |-> d, dropins |-> {}, stale |-> FALSE, syncfails |-> FALSE] : d \in {ExecBits, Liar} \cup FailSync}
+                        \* the runtime's own synchronization callback fails: Start fails and everything launched is killed
+                        \cup {[entries |-> <<E("10-aa", "exec", "healthy"), E("20-bb", "exec", "healthy"), E("30-cc", "exec", "noregister")>>,
+                               dropins |-> {}, stale |-> FALSE, syncfails |-> TRUE]}
+                        \cup {[entries |-> Dotted, dropins |-> ds, stale |-> FALSE, syncfails |-> FALSE] : ds \in DottedDrops}
                         \cup {[entries |-> <<E("10-aa", "exec", "healthy"), E("20-bb", "exec", "healthy")>>,
-                               dropins |-> {D("10-aa.conf", "cfg-of-10-aa")}, stale |-> TRUE]}
+                               dropins |-> {D("10-aa.conf", "cfg-of-10-aa")}, stale |-> TRUE, syncfails |-> FALSE]}
 
 GInit == sc \in Scenarios /\ emitted = FALSE
 GEmit == ~emitted /\ PrintT(<<"CASE", ToJson(sc)>>) /\ emitted' = TRUE /\ UNCHANGED sc
